@@ -33,6 +33,8 @@ def main(argv):
         base_commit = argv[argv.index("--base") + 1] if "--base" in argv else "HEAD"
         subprocess.run(["git", "-C", "/repo", "worktree", "add", "-q", "--detach", repo, base_commit], check=True)
         r = subprocess.run(["git", "-C", repo, "apply"] + (["-R"] if reverse else []) + [patch], capture_output=True, text=True)
+        if r.returncode != 0 and not reverse:
+            r = subprocess.run(["git", "-C", repo, "apply", "--3way", patch], capture_output=True, text=True)
         if r.returncode != 0:
             print("patch does not apply:", r.stderr)
             return 3
